@@ -109,6 +109,8 @@ class InMemorySemantivaTransport(SemantivaTransport):
         self._queues: Dict[str, tuple[deque, threading.Lock]] = defaultdict(
             lambda: (deque(), threading.Lock())
         )
+        # Guards creation of channel entries: the defaultdict factory is not atomic
+        self._queues_lock = threading.Lock()
         self._connected = False
 
     def connect(self) -> None:
@@ -148,7 +150,8 @@ class InMemorySemantivaTransport(SemantivaTransport):
         Returns:
             Future if require_ack=True, else None.
         """
-        q, lock = self._queues[channel]
+        with self._queues_lock:
+            q, lock = self._queues[channel]
         msg = Message(
             data=data,
             context=context,
